@@ -1,6 +1,7 @@
 use crate::persistence::Manifest;
 #[cfg(test)]
 use crate::persistence::Snapshot;
+use crate::persistence::WalReader;
 use anyhow::{anyhow, Context, Result};
 use serde::{Deserialize, Serialize};
 use std::collections::{BTreeMap, BTreeSet, HashMap};
@@ -424,6 +425,25 @@ fn list_wal_segments_in_dir(data_dir: &Path) -> Result<Vec<(String, PathBuf)>> {
     Ok(wal_files)
 }
 
+/// Recovery reads exactly the segments the MANIFEST names and refuses to start when one of
+/// them cannot be opened. A segment file the MANIFEST does not name may be adopted into a
+/// backup's MANIFEST only if it opens as a WAL: a file left behind by a rotation or a restart
+/// that failed before the header was written would otherwise make the restored directory
+/// unstartable, although the source directory starts fine.
+fn unlisted_segment_is_readable(path: &Path) -> bool {
+    match WalReader::open(path) {
+        Ok(_) => true,
+        Err(error) => {
+            warn!(
+                wal_segment = %path.display(),
+                error = %error,
+                "WAL segment not in MANIFEST has no valid header; not adding it to the backup MANIFEST"
+            );
+            false
+        }
+    }
+}
+
 fn read_manifest_layout(path: &Path) -> Result<Option<ManifestLayout>> {
     if !path.exists() {
         return Ok(None);
@@ -633,6 +653,9 @@ impl BackupManager {
                 }
 
                 for discovered in discovered_names.difference(&listed_names) {
+                    if !unlisted_segment_is_readable(&self.data_dir.join(discovered)) {
+                        continue;
+                    }
                     warn!(
                         wal_segment = discovered,
                         "WAL segment exists on disk but not in MANIFEST; adding to backup MANIFEST"
@@ -881,6 +904,9 @@ impl BackupManager {
                 let listed_names: BTreeSet<String> =
                     manifest.wal_segments.iter().cloned().collect();
                 for discovered in discovered_names.difference(&listed_names) {
+                    if !unlisted_segment_is_readable(&self.data_dir.join(discovered)) {
+                        continue;
+                    }
                     warn!(
                         wal_segment = discovered,
                         "WAL segment exists on disk but not in MANIFEST; adding to incremental backup MANIFEST"
